@@ -429,6 +429,14 @@ func realiseBase(v J, r *Repr, path, h string) (any, error) {
 				}
 			}
 			return t, nil
+		case "array": // a fixed-size Go array of that many elements
+			av := reflect.New(reflect.ArrayOf(len(out), reflect.TypeOf((*any)(nil)).Elem())).Elem()
+			for i, e := range out {
+				if e != nil {
+					av.Index(i).Set(reflect.ValueOf(e))
+				}
+			}
+			return av.Interface(), nil
 		case "array3":
 			if len(out) != 3 {
 				return nil, fmt.Errorf("repr array3: length %d", len(out))
@@ -662,6 +670,10 @@ func autoRepr(pairs []any, r *rand.Rand) J {
 				choices = []string{"array2"}
 			case 3:
 				choices = []string{"array3"}
+			default:
+				if len(items) > 0 {
+					choices = []string{"array"}
+				}
 			}
 		case "map":
 			ps := jarr(v, "v")
